@@ -14,7 +14,7 @@ RULE = ('seeded worlds run with -x and at least one injected bad outcome (failur
         'printed, verdict failed. distinct = digest of hook-site sequence + faults; non-trivial = '
         'a bad outcome occurred')
 BIAS = dict(n_test_faults=[1, 1, 2, 3], n_layer_faults=[0, 0, 1, 1], layer_kinds=('setUp', 'nie', 'nie'),
-            p_x=1.0, p_j=0.2, p_repeat=0.35, p_shuffle=0.3, p_buffer=0.0,
+            p_x=1.0, p_j=0.2, p_repeat=0.35, p_shuffle=0.3, p_buffer=0.3,
             test_excs=['AssertionError', 'ValueError', 'KeyError', 'CustomError'],
             profile=dict(p_doctest=0.2, p_deco_xfail=0.15, p_subtests=0.2))
 
